@@ -7,6 +7,8 @@
 import Hw.Topo.RestrictLemmas
 import Hw.Topo.RenderLemmas
 import Hw.Topo.RestrictTyping
+import Hw.Topo.RestrictSide
+import Hw.Attr.MemAttrsState
 namespace Hw.Props.C08
 open Hw.Topo Hw.Topo.Restrict Hw.Gen.Restrict
 
@@ -382,6 +384,87 @@ theorem C08_repeat_exact (t : Topo) (calls : List (CSet × Nat)) (hok : okT t.tr
     cnt noComplete a (objsT (restrict (runCalls t calls) s flags).1.tree) ≤
       cnt (fun x => noComplete (shrinkU p x)) a (objsT (runCalls t calls).tree) :=
   restrict_exact _ s flags p hp hret (ok_runCalls calls t hok) a
+
+
+/-! ### the side structures (distances, CPU kinds, memory attributes) under restrict
+
+The post-restrict fixups of hwloc_topology_restrict() are the C13 / C15 / C14 models composed in Hw.Topo.RestrictSide
+(`Side.restrict`: invalidate / cpukinds restrict / need_refresh; `Side.observe`: the lazy refresh done by the next public query).
+The engine `restrict` runs exactly these two functions between the observations it compares. -/
+
+section Side
+open Hw.Topo.RestrictSide Hw.Dist
+
+/-- distances after a successful restrict, as the next query sees them: every structure is the old one re-resolved against the
+    surviving objects — dropped iff fewer than 2 of its objects survive, otherwise same id, name, kind, exactly the surviving
+    objects in their old order (all of them objects of the new topology) and exactly the sub-matrix of the surviving pairs -/
+theorem C08_side_distances (s : Side) (T' : List Hw.Dist.Obj) (root' mask : Nat) (hm : mask.testBit 0 = true) :
+    ((s.restrict T' root').observe mask).dists = s.dists.filterMap (fun d => refreshOne T' { d with valid := false }) ∧
+    (∀ d : Hw.Dist.Dist, refreshOne T' { d with valid := false } = none ↔
+       rank (liveOf (resolveAll T' { d with valid := false })) d.n < 2) ∧
+    (∀ d d' : Hw.Dist.Dist, refreshOne T' { d with valid := false } = some d' →
+       let live := liveOf (resolveAll T' { d with valid := false })
+       d'.id = d.id ∧ d'.name = d.name ∧ d'.kind = d.kind ∧ d'.n = rank live d.n ∧ 2 ≤ d'.n ∧
+       (∀ i, i < d.n → live i = true → d'.objs.getD (rank live i) none = (resolveAll T' { d with valid := false }).getD i none) ∧
+       (∀ i j, i < d.n → j < d.n → live i = true → live j = true →
+          d'.vals.getD (rank live i * d'.n + rank live j) 0 = d.vals.getD (i * d.n + j) 0) ∧
+       (∀ x, x ∈ d'.objs → ∃ o, x = some o ∧ o ∈ T')) := by
+  refine ⟨restrict_observe_dists s T' root' mask hm, fun d => refreshOne_none_iff T' _ rfl, ?_⟩
+  intro d d' h
+  have := refreshOne_some_spec T' { d with valid := false } d' rfl h
+  exact ⟨this.1, this.2.1, this.2.2.1, this.2.2.2.2.2.2.1, this.2.2.2.2.2.2.2.1,
+         fun i hi li => (this.2.2.2.2.2.2.2.2.2.1 i hi li).1, this.2.2.2.2.2.2.2.2.2.2.1, this.2.2.2.2.2.2.2.2.2.2.2⟩
+
+/-- the in-place compaction keeps the per-object type array of a heterogeneous structure aligned with the index and object arrays,
+    for every removal pattern (this is what a later restrict + refresh relies on to find the survivors again) -/
+theorem C08_side_distances_types_aligned (T : Hw.Dist.Topo) (d d' : Hw.Dist.Dist) (hv : d.valid = false) (hh : d.hetero = true)
+    (h : refreshOne T d = some d') (i : Nat) (hi : i < d.n) (li : liveOf (resolveAll T d) i = true) :
+    d'.tys.getD (rank (liveOf (resolveAll T d)) i) (-1) = d.tys.getD i (-1) ∧
+    d'.idx.getD (rank (liveOf (resolveAll T d)) i) 0 = d.idx.getD i 0 ∧
+    d'.objs.getD (rank (liveOf (resolveAll T d)) i) none = (resolveAll T d).getD i none :=
+  refresh_types_aligned T d d' hv hh h i hi li
+
+/-- repeated application: a restrict that no query follows is invisible once a later restrict succeeded (stale caches are
+    re-resolved against the final topology only) -/
+theorem C08_side_distances_repeat (s : Side) (T1 T2 : List Hw.Dist.Obj) (r1 r2 mask : Nat) :
+    (((s.restrict T1 r1).restrict T2 r2).observe mask).dists = ((s.restrict T2 r2).observe mask).dists := by
+  simp only [Side.observe, restrict_restrict_dists]
+  rfl
+
+/-- CPU kinds: the C15 restrict with the new root cpuset; when no kind is emptied they are the old kinds, in order, each
+    intersected with the new root cpuset, efficiencies untouched -/
+theorem C08_side_cpukinds (s : Side) (T' : List Hw.Dist.Obj) (root' : Nat) :
+    (s.restrict T' root').kinds = (Hw.CpuKinds.restrictKinds .dflt { kinds := s.kinds, root := s.root } root').kinds ∧
+    ((∀ k ∈ s.kinds, k.cpuset &&& root' ≠ 0) →
+      (s.restrict T' root').kinds = s.kinds.map (fun k => { k with cpuset := k.cpuset &&& root' })) :=
+  ⟨rfl, restrict_kinds_none_emptied s T' root'⟩
+
+/-- memory attributes after a restrict, as the next query sees them: targets = the surviving images of the stored ones in order;
+    a target disappears iff its object vanished or (with initiators) no initiator is left; a cpuset initiator is clipped to the new
+    root cpuset and disappears iff that is empty, an object initiator iff the object vanished; values are kept -/
+theorem C08_side_memattrs (e : Hw.MemAttrs.Env) (a : Hw.MemAttrs.Attr) (hv : a.valid = false) :
+    (Hw.MemAttrs.ensureValid e a).targets = a.targets.filterMap (Hw.MemAttrs.refreshTarget e a.needInit) ∧
+    (∀ t, Hw.MemAttrs.refreshTarget e a.needInit t = none ↔
+       e.hasObj t.type t.gp = false ∨ (a.needInit = true ∧ ∀ i ∈ t.inits, Hw.MemAttrs.refreshInit e i = none)) ∧
+    (∀ t t', Hw.MemAttrs.refreshTarget e a.needInit t = some t' →
+       t'.type = t.type ∧ t'.gp = t.gp ∧ t'.os = t.os ∧ t'.noinit = t.noinit) ∧
+    (∀ i i', Hw.MemAttrs.refreshInit e i = some i' → i'.value = i.value) :=
+  ⟨(refresh_attr_targets e a hv).1, fun t => Hw.MemAttrs.refreshTarget_none_iff e a.needInit t,
+   fun _ _ h => Hw.MemAttrs.refreshTarget_key h, fun _ _ h => Hw.MemAttrs.refreshInit_value h⟩
+
+/-- non-vacuity: [Core gp2, Core gp3, Package gp5, PU os6] (the seeded case); the first restrict removes Core gp2, the second one
+    nothing more: after both, observed or not in between, the structure is the 3×3 sub-matrix over the three survivors -/
+def demoDist : Hw.Dist.Dist :=
+  { id := 0, name := some "hetero", kind := 26, uniq := -1, hetero := true, n := 4, idx := [2, 3, 5, 9], tys := [3, 3, 1, 4],
+    objs := [], valid := true, vals := [11, 12, 13, 14, 21, 22, 23, 24, 31, 32, 33, 34, 41, 42, 43, 44] }
+def demoT : Hw.Dist.Topo := [⟨3, 3, 1, false⟩, ⟨1, 5, 1, false⟩, ⟨4, 9, 6, false⟩]
+
+example :
+    ((((({ dists := [demoDist] } : Side).restrict demoT 0xfc).observe 1).restrict demoT 0xfc).observe 1).dists.map
+      (fun d => (d.n, d.idx, d.tys, d.vals)) = [(3, [3, 5, 9], [3, 1, 4], [22, 23, 24, 32, 33, 34, 42, 43, 44])] := by
+  decide +kernel
+
+end Side
 
 /-! ### non-vacuity and the reorder-without-removal case -/
 
